@@ -71,7 +71,7 @@ def generic_run(prop, spec, tier, seed):
                 print("  committed replay fails: %s" % oc[2][:300])
                 violations.append(path)
         reports, failures, infos = runner.run_workers(
-            exe, kind, seed, count, budget, extra=extra, nworkers=part.get("workers"),
+            exe, kind, seed + part.get("seed_offset", 0), count, budget, extra=extra, nworkers=part.get("workers"),
             maxsize=part.get("maxsize", 100) if quick else part.get("thorough_maxsize", 100))
         counters, fps, smp, nts = runner.merge_reports(reports)
         timeouts += infos.get("timeouts", 0)
@@ -191,11 +191,18 @@ HIST_RULES = {
 }
 
 SPECS = {}
-for _p, _qc in (("C01", 500), ("C06", 500), ("C07", 500), ("C13", 400), ("C14", 350)):
+# Semantic history checks run twice: with ASan+UBSan (memory errors join the oracle) and, for throughput, without
+# sanitizers (page faults are ~10 us in this VM and ASan multiplies them; the plain build explores ~3x more cases).
+for _p in ("C01", "C06", "C07", "C13", "C14"):
     SPECS[_p] = {
-        "engine": "hist", "flavour": "asan", "kind": _p, "nt": _p + ".nt", "level": "exploration",
-        "rule": HIST_RULES[_p], "quick_count": _qc, "thorough_count": 100000, "quick_budget": 45, "thorough_budget": 600,
-        "assumptions": COMMON_ASSUME, "run": generic_run,
+        "level": "exploration", "quick_budget": 50, "thorough_budget": 600, "assumptions": COMMON_ASSUME, "run": generic_run,
+        "parts": [
+            {"name": "asan", "engine": "hist", "flavour": "asan", "kind": _p, "nt": _p + ".nt", "rule": HIST_RULES[_p],
+             "quick_count": 100000, "thorough_count": 10000000, "budget_share": 0.4},
+            {"name": "plain", "engine": "hist", "flavour": "plain", "kind": _p, "nt": _p + ".nt",
+             "rule": "same generator and oracles, lcdb built without sanitizers (clang -O1, asserts on) for ~3x the case rate; seeds differ from the asan part",
+             "quick_count": 100000, "thorough_count": 10000000, "budget_share": 0.6, "extra": [], "seed_offset": 7777},
+        ],
     }
 
 CRASH_ASSUME = COMMON_ASSUME + [
@@ -216,9 +223,51 @@ CRASH_RULES = {
     "C17": CRASH_RULE_COMMON + "generator weighted to reopen (MANIFEST roll-over); non-trivial = image taken between creating the new MANIFEST and removing the old one (two MANIFESTs, a .dbtmp, or no CURRENT yet)",
 }
 
-for _p, _qc in (("C02", 200), ("C03", 200), ("C05", 200)):
+for _p in ("C02", "C03", "C05"):
     SPECS[_p] = {
-        "engine": "crash", "flavour": "asan", "kind": _p, "nt": _p + ".nt", "level": "fault_enumeration", "eval_counter": "images",
-        "rule": CRASH_RULES[_p], "quick_count": _qc, "thorough_count": 100000, "quick_budget": 50, "thorough_budget": 900,
-        "assumptions": CRASH_ASSUME, "run": generic_run,
+        "level": "fault_enumeration", "quick_budget": 55, "thorough_budget": 900, "assumptions": CRASH_ASSUME, "run": generic_run,
+        "parts": [
+            {"name": "asan", "engine": "crash", "flavour": "asan", "kind": _p, "nt": _p + ".nt", "eval_counter": "images", "rule": CRASH_RULES[_p],
+             "quick_count": 100000, "thorough_count": 10000000, "budget_share": 0.4},
+            {"name": "plain", "engine": "crash", "flavour": "plain", "kind": _p, "nt": _p + ".nt", "eval_counter": "images",
+             "rule": "same generator, images and oracles with lcdb built without sanitizers (more images per second); seeds differ from the asan part",
+             "quick_count": 100000, "thorough_count": 10000000, "budget_share": 0.6, "seed_offset": 7777},
+        ],
     }
+
+CODEC_ASSUME = [
+    "lcdb objects compiled unmodified from $VERIF_REPO (pinned defines, clang -O1, asserts on, ASan+UBSan); internal headers included the way the repository's own tests do",
+    "reference codecs in vf/ref/ref.h are written from the LevelDB format documents and share no code with lcdb",
+    "log writer/reader are driven through their in-memory test fields (dst/src), table files live on tmpfs",
+]
+
+SPECS["C15"] = {
+    "engine": "codec", "flavour": "asan", "kind": "C15", "nt": "C15.nt", "level": "exploration",
+    "rule": "cases = rapidcheck-generated (record lengths around block/fragment boundaries and random up to 200 KiB (1 MiB thorough), optional prefix log for the reuse path, "
+            "truncation offsets, byte alterations: bit flips, 0x00/0xFF, multi-byte xor, zeroed 512 B sector) and CRC cases (length sweep x alignment, table-driven path then hardware path after ldb_crc32c_init); "
+            "oracle: bytes equal the reference encoder, both decoders return the records, a cut yields exactly the records wholly before it with no report, alterations yield a subsequence, later intact blocks are delivered and any loss is reported; "
+            "non-trivial = a log longer than one block / a truncation sweep / an alteration that changed a byte / a CRC sweep; distinct by case hash",
+    "quick_count": 1500, "thorough_count": 1000000, "quick_budget": 40, "thorough_budget": 600,
+    "assumptions": CODEC_ASSUME, "run": generic_run,
+}
+SPECS["C16"] = {
+    "engine": "codec", "flavour": "asan", "kind": "C16", "nt": "C16.nt", "level": "exploration",
+    "rule": "cases = rapidcheck-generated tables (0..4000 entries quick / 50000 thorough; keys with shared prefixes, 0xFF runs, empty key, internal-key suffixes; values 0..160 KiB; block size, restart interval, compression, bloom bits, "
+            "comparator, cache, mmap) built with ldb_tablegen and read back with ldb_table + the reference reader; Snappy round-trips and differential decode of damaged streams; separator/successor contract exhaustively over "
+            "strings of length <=3 (quick) / <=4 (thorough) on {00,01,7f,fe,ff}; non-trivial = table with >=2 data blocks, a block stored compressed or a filter; Snappy input >= 64 bytes; distinct by content hash",
+    "quick_count": 400, "thorough_count": 1000000, "quick_budget": 40, "thorough_budget": 600,
+    "assumptions": CODEC_ASSUME, "run": generic_run,
+}
+SPECS["C17"] = {
+    "level": "exploration", "quick_budget": 75, "thorough_budget": 900, "assumptions": CODEC_ASSUME + CRASH_ASSUME, "run": generic_run,
+    "parts": [
+        {"name": "codec", "engine": "codec", "flavour": "asan", "kind": "C17", "nt": "C17.nt", "quick_count": 3000, "thorough_count": 1000000, "budget_share": 0.25,
+         "rule": "version edits with every field present/absent, values at 2^(7k)+-1 and 2^64-1, levels 0..6, arbitrary keys >= 8 bytes, up to 300 (5000 thorough) files: export equals the reference encoding, reference decodes it, import(export(e)) == e, "
+                 "permuted-field reference encodings import identically; varint32 exhaustively within +-1024 of every 2^(7k) (all 2^32 values in the thorough tier), varint64 around every 2^(7k); non-trivial = edit with >=1 file entry and a multi-byte varint, or a varint range"},
+        {"name": "hist", "engine": "hist", "flavour": "asan", "kind": "histC17", "nt": "C17.nt", "quick_count": 400, "thorough_count": 100000, "budget_share": 0.35,
+         "rule": "real histories weighted to reopen: at every quiescent point the MANIFEST named by CURRENT is replayed by the reference decoder and must reproduce the reported file set (numbers, sizes, bounds), comparator name and counters; "
+                 "non-trivial = MANIFEST with >=2 edits naming >=1 table; distinct by MANIFEST bytes"},
+        {"name": "crash", "engine": "crash", "flavour": "asan", "kind": "C17", "nt": "C17.nt", "eval_counter": "images", "quick_count": 200, "thorough_count": 100000, "budget_share": 0.4,
+         "rule": CRASH_RULES["C17"]},
+    ],
+}
